@@ -27,7 +27,7 @@ def plan(tier, seed):
     n = 4 if tier == "quick" else 16
     specs = [{"tier": tier, "part": "bfs", "slice": [i, n], "seed": env.shard_seed(i), "depth": 2,
               "sample": 500 if tier == "quick" else None} for i in range(n)]
-    specs += [{"tier": tier, "part": "random", "seed": env.shard_seed(50 + i), "n_seq": 250 if tier == "quick" else 3000} for i in range(n)]
+    specs += [{"tier": tier, "part": "random", "seed": env.shard_seed(50 + i), "n_seq": 250 if tier == "quick" else 8000} for i in range(n)]
     specs += [{"tier": tier, "part": "embedded", "seed": env.shard_seed(90 + i), "n_seq": 60 if tier == "quick" else 800} for i in range(2 if tier == "quick" else 8)]
     return specs
 
